@@ -131,7 +131,10 @@ pub fn copy_tree(src: &Path, dst: &Path) {
     for e in fs::read_dir(src).unwrap().flatten() {
         let p = e.path();
         let d = dst.join(e.file_name());
-        if p.is_dir() {
+        if let Ok(target) = fs::read_link(&p) {
+            // a symbolic link is copied as a link (one of the obstacles points at /dev/full)
+            let _ = std::os::unix::fs::symlink(target, &d);
+        } else if p.is_dir() {
             copy_tree(&p, &d);
         } else {
             fs::copy(&p, &d).unwrap();
